@@ -319,6 +319,8 @@ class Fn:
 
     # ---------------------------------------------------------------- conditions (Prop-valued; Bool coerces)
     def cond(self, e):
+        if not isinstance(e, (ast.Constant, ast.Name, ast.BoolOp)) and ast.unparse(e) in self.spec.get("conds", {}):
+            return self.spec["conds"][ast.unparse(e)]          # a whole condition bound by its source text
         if isinstance(e, ast.BoolOp):
             op = " ∧ " if isinstance(e.op, ast.And) else " ∨ "
             return "(" + op.join(self.cond(v) for v in e.values) + ")"
